@@ -332,13 +332,31 @@ def rule_fileref(ctx, py):
         ctx.check("get_last_element" in pyfe.src(v), R, v, f._qual, "data file reference " + pyfe.src(v),
                   "stored as a bare file name (relative to the JSON file)",
                   "the data file is referenced by a path that is not relative to the JSON file")
+    # the data file of a trajectory is named after the trajectory file itself: <path without a trailing .json>_data.npy.
+    # Cutting the name at its last dot (splitext, rsplit('.'), Path.stem / with_suffix) maps `run_kf0.5` and `run_kf0.25` to one
+    # data file, so a later save overwrites the data of an earlier trajectory
+    from .. import pysym
+    dps = [st for st in ast.walk(f) if isinstance(st, ast.Assign) and pyfe.src(st.targets[0]) == "data_path"]
+    ctx.need(len(dps) >= 1, R, "save_rdtrajectory: data_path not found")
+    for st in dps:
+        e = pysym.inline(st.value, f, stop={"path"})
+        t = pyfe.src(e).replace(" ", "").replace('"', "'")
+        lossy_cut = [c for c in ast.walk(e) if (isinstance(c, ast.Call) and pyfe.call_name(c).split(".")[-1] in (
+            "splitext", "rsplit", "rpartition", "with_suffix", "split", "partition")) or (isinstance(c, ast.Attribute) and
+                                                                                     c.attr in ("stem", "suffix"))]
+        okk = not lossy_cut and "path" in t and (t.startswith("filepath.remove_extension_if_existing(path,'.json')+") or
+                                                  t.startswith("remove_extension_if_existing(path,'.json')+") or t.startswith("path+"))
+        ctx.check(okk, R, st, f._qual, "data_path = " + pyfe.src(st.value)[:70], "the trajectory path, minus a trailing .json, plus "
+                  "a suffix: distinct trajectories get distinct data files", "the data file name is derived by `%s`: two trajectory "
+                  "paths that differ after their last dot share one data file and overwrite each other" % (
+                      pyfe.src(lossy_cut[0])[:50] if lossy_cut else t[:60]))
     # information: readers that accept a file reference without a base path
     lf = py.fn("rdoutput.load_rdtrajectory")
     for call in pyfe.calls_in(lf):
         if pyfe.call_name(call) == "unitarray_from_dict" and pyfe.arg(call, 1, "base_path") is None:
             ctx.info(R, call, lf._qual, pyfe.src(call), "a file reference here would resolve against the current "
                      "directory; save_rdtrajectory always writes this entry inline")
-    ctx.floor(R, 12)
+    ctx.floor(R, 13)
 
 
 def rule_dispatch(ctx, py):
@@ -403,10 +421,9 @@ def rule_unitstr(ctx, py, R="C12.UNITSTR"):
     ctx.floor(R, 12)
 
 
-def rule_traj(ctx, py):
+def rule_traj(ctx, py, R="C12.TRAJ"):
     """save_rdtrajectory / load_rdtrajectory: every constructor parameter of RDTrajectory is written from the matching
     attribute and read back from the same key"""
-    R = "C12.TRAJ"
     sf, lf = py.fn("rdoutput.save_rdtrajectory"), py.fn("rdoutput.load_rdtrajectory")
     obj = pyfe.params(sf)[0]
     emitted, attrs = writer_info(sf)
@@ -497,6 +514,8 @@ def run(ctx):
     rule_schema(ctx, py)
     rule_cond_key(ctx, py)
     rule_fileref(ctx, py)
+    from . import c04
+    c04.rule_inherit(ctx, py, "C12.INHERIT")    # a referenced file inherits the units system of the level that names it
     rule_dispatch(ctx, py)
     ctx.analysed["package"] = {"modules": len(py.mods), "functions": py.nfuncs}
     from .. import lints
